@@ -76,20 +76,6 @@ def _classify_dead(run: _site.Run, idx: Dict[str, List[Any]], page: str, href: s
     # ids, overwriting the title's refid) for every sidebar that shows it, the docstring body is rendered once
     if href.startswith('#rst-toc-entry-'):
         return 'C11:dead-anchor:section-title-backlink-to-toc-entry'
-    # a same-page link inside an inherited docstring: it was rendered relative to the page of the class the docstring
-    # comes from
-    if href.startswith('#') and frag:
-        from pydoctor import epydoc2stan
-        for o in idx.get(page, []):
-            if isinstance(o, model.Class):
-                for m in o.contents.values():
-                    if m.docstring is None:
-                        try:
-                            src = epydoc2stan.ensure_parsed_docstring(m)
-                        except Exception:  # noqa: BLE001
-                            src = None
-                        if src is not None and src is not m and src.parent is not o and src.parent is not None and unquote(frag) in src.parent.contents:
-                            return 'C11:dead-anchor:inherited-docstring-link-relative-to-source-page'
     # producer: where on the page does the link sit?
     where = 'body'
     for a in node.ancestors():
@@ -111,6 +97,21 @@ def _classify_dead(run: _site.Run, idx: Dict[str, List[Any]], page: str, href: s
         if 'navbar' in cl or a.tag == 'nav' or a.tag == 'head':
             where = 'chrome'
             break
+    # a same-page link inside an inherited docstring: it was rendered relative to the page of the class the docstring
+    # comes from
+    # (the body of the docstring in the member's details: summaries shown in tables and indexes are rendered on purpose with full urls)
+    if href.startswith('#') and frag and where == 'docstring':
+        from pydoctor import epydoc2stan
+        for o in idx.get(page, []):
+            if isinstance(o, model.Class):
+                for m in o.contents.values():
+                    if m.docstring is None:
+                        try:
+                            src = epydoc2stan.ensure_parsed_docstring(m)
+                        except Exception:  # noqa: BLE001
+                            src = None
+                        if src is not None and src is not m and src.parent is not o and src.parent is not None and unquote(frag) in src.parent.contents:
+                            return 'C11:dead-anchor:inherited-docstring-link-relative-to-source-page'
     kind = 'file' if 'was not written' in why else 'anchor'
     return f'C11:dead-{kind}:{where}'
 
